@@ -320,8 +320,13 @@ AppendF(k, st) ==
                      /\ UNCHANGED <<idx, up>>
                      /\ Finish(Act("AppendF", batch, 0, st, "ok"))
 
+\* "idx": the database update of the rollback (truncateIndices / the filter
+\* tip update) reports an error.  With the index moved first nothing has
+\* changed yet; with the file truncated first (~FixRollbackOrder) the file is
+\* already shorter than the index says.
 RbStops == {<<"none", 0>>}
            \cup (IF ncrashes < MaxCrashes THEN {<<"c1", 0>>} ELSE {})
+           \cup (IF nfaults < MaxFaults THEN {<<"idx", 0>>} ELSE {})
 
 \* blockHeaderStore.RollbackBlockHeaders(n)
 RollbackB(n, st) ==
@@ -352,6 +357,10 @@ RollbackB(n, st) ==
                           ELSE idx' = iT /\ ridx' = rT /\ tipk' = tT /\ UNCHANGED file
           /\ up' = 2
           /\ Finish(Act("RollbackB", <<>>, n, st, "crash"))
+     ELSE IF st[1] = "idx"
+     THEN /\ IF fileFirst THEN file' = fT ELSE UNCHANGED file
+          /\ UNCHANGED <<idx, ridx, tipk, up>>
+          /\ Finish(Act("RollbackB", <<>>, n, st, "err"))
      ELSE /\ file' = fT /\ idx' = iT /\ ridx' = rT /\ tipk' = tT /\ UNCHANGED up
           /\ Finish(Act("RollbackB", <<>>, n, st, "ok"))
 
@@ -378,6 +387,10 @@ RollbackF(st) ==
                           ELSE tipk' = tT /\ UNCHANGED file
           /\ up' = 2
           /\ Finish(Act("RollbackF", <<>>, 1, st, "crash"))
+     ELSE IF st[1] = "idx"
+     THEN /\ IF fileFirst THEN file' = fT ELSE UNCHANGED file
+          /\ UNCHANGED <<tipk, up>>
+          /\ Finish(Act("RollbackF", <<>>, 1, st, "err"))
      ELSE /\ file' = fT /\ tipk' = tT /\ UNCHANGED up
           /\ Finish(Act("RollbackF", <<>>, 1, st, "ok"))
 
